@@ -110,7 +110,7 @@ func main() {
 	})
 }
 
-func plan(tier string, seed int64) []run.Batch {
+func planBase(tier string, seed int64) []run.Batch {
 	var bs []run.Batch
 	add := func(kind string, from, to int, timeout int) {
 		bs = append(bs, run.Batch{Kind: kind, Seed: seed, N: to - from, TimeoutS: timeout,
@@ -1193,7 +1193,7 @@ func runScenario(sc *scenario, b run.Batch, r *ev.Result) (fatal bool) {
 	return false
 }
 
-func child(b run.Batch, r *ev.Result) {
+func childBase(b run.Batch, r *ev.Result) {
 	var from, to int
 	fmt.Sscan(b.P("from"), &from)
 	fmt.Sscan(b.P("to"), &to)
